@@ -17,3 +17,7 @@ func housekeeping(t *oidc.TraefikOidc) bool { return false }
 func endpointsOf(t *oidc.TraefikOidc) map[string]string { return nil }
 
 func deriveBlockKeyOf(key string) []byte { return nil }
+
+func expireKeySet(t *oidc.TraefikOidc) bool { return false }
+
+func onKeyConversion(fn func(kty string)) func() { return func() {} }
